@@ -102,7 +102,13 @@ C05_Commits(ln) ==
      LET k == ln.commits[n].who
          r == ln.reqs[k] IN
      \A ug \in Carried(r) :
-        (ProviderData(Before(ln, n), ug[1]) # ProviderData(After(ln, n), ug[1]))
+        (\/ ProviderData(Before(ln, n), ug[1]) # ProviderData(After(ln, n), ug[1])
+         \* a reshape carries a generation for every provider it names and is one change: whatever
+         \* it commits - to any provider's data or to allocations - is committed against all of them
+         \/ /\ r.op = "reshape"
+            /\ \/ Before(ln, n).alloc # After(ln, n).alloc
+               \/ \E u \in Providers(Before(ln, n)) \cup Providers(After(ln, n)) :
+                     ProviderData(Before(ln, n), u) # ProviderData(After(ln, n), u))
            => (ug[1] \in Providers(Before(ln, n)) /\ Before(ln, n).rp[ug[1]].gen = ug[2])
 
 \* requests that derive the generation themselves never commit over a change
@@ -143,14 +149,18 @@ C05_AtMostOne(ln) ==
                    /\ ProviderData(Before(ln, n), x[1]) # ProviderData(After(ln, n), x[1]))
            \/ ~(\E n \in DOMAIN ln.commits : ln.commits[n].who = b
                    /\ ProviderData(Before(ln, n), x[1]) # ProviderData(After(ln, n), x[1]))
+\* ("one consumer" is one incarnation of it: a consumer that was removed and made anew in between
+\* passes through the same generations again, and a write carrying one of them is then a write to
+\* the new consumer - whether it may succeed is judged by Serializable.)
+ChangesCons(ln, n, k, c) ==
+  ln.commits[n].who = k /\ ConsAllocs(Before(ln, n), c) # ConsAllocs(After(ln, n), c)
 C06_AtMostOne(ln) ==
   \A a, b \in Succeeded(ln) : a # b =>
      \A x \in ConsCarried(ln.reqs[a]) : \A y \in ConsCarried(ln.reqs[b]) :
         (x = y) =>
-           \/ ~(\E n \in DOMAIN ln.commits : ln.commits[n].who = a
-                   /\ ConsAllocs(Before(ln, n), x[1]) # ConsAllocs(After(ln, n), x[1]))
-           \/ ~(\E n \in DOMAIN ln.commits : ln.commits[n].who = b
-                   /\ ConsAllocs(Before(ln, n), x[1]) # ConsAllocs(After(ln, n), x[1]))
+           \A n, m \in DOMAIN ln.commits :
+              (n < m /\ ChangesCons(ln, n, a, x[1]) /\ ChangesCons(ln, m, b, x[1]))
+                 => \E j \in n..(m - 1) : x[1] \notin DOMAIN After(ln, j).cons
 
 \* (That a rejected request has no *net* effect is part of Serializable: the
 \* final database equals the serial execution of the successful requests only.
